@@ -71,7 +71,7 @@ CLAIMS = [
                       "mutable session state is Arc-shared with snapshots; in cajun every async fn takes session before projects, holds "
                       "no guard across spawn_blocking, reads the revision before the snapshot and re-checks it under the session lock "
                       "before publishing; AnalysisTask::run's cancellation table is exact; no registry or lock guard is live at a salsa "
-                      "input write (MIR may-analysis, 6 writes); a session built from another shares the other's registry Arc.",
+                      "input write (MIR may-analysis in the 19 functions that reach a setter, 24 write sites); a session built from another shares the other's registry Arc.",
         "level_note": "Interleavings are NOT explored (that is model checking / stress, a different family): absence of deadlock and of "
                       "mixed-revision results is argued from lock order and scope only. Known finding F6 (pending slot, two critical "
                       "sections) is listed. F38 (get-then-insert on the registry shared with snapshots; 266 / 324 stale iterations of 3000) was "
